@@ -52,6 +52,12 @@ def endswith (s : Str) (suffixes : List Str) : Bool := suffixes.any fun p => p.i
 /-- `sub in s` -/
 def contains (s sub : Str) : Bool := (findUp (occursAt s sub) 0 (s.length + 1)).isSome
 
+/-- `a < b` on strings: lexicographic by code point -/
+def lt (a b : Str) : Bool := ltStr a b
+def gt (a b : Str) : Bool := ltStr b a
+def le (a b : Str) : Bool := !ltStr b a
+def ge (a b : Str) : Bool := !ltStr a b
+
 def upper (cfg : Cfg) (s : Str) : Str := s.flatMap cfg.upper
 def lower (cfg : Cfg) (s : Str) : Str := s.flatMap cfg.lower
 
